@@ -16,6 +16,7 @@ from io import StringIO, BytesIO
 from pathlib import Path
 from types import TracebackType
 from typing import cast, Any, Optional, Union
+from http.client import HTTPException
 from urllib.request import urlopen, OpenerDirector
 from urllib.parse import urlsplit, unquote
 from urllib.error import URLError
@@ -445,6 +446,9 @@ class XMLResource(XMLResourceLoader):
                 return cast(IOType, urlopen(url, timeout=self._timeout))
             except URLError as err:
                 raise XMLResourceOSError(f"can't access to resource {url!r}: {err.reason}")
+            except (ValueError, HTTPException) as err:
+                # A malformed URL (e.g. an invalid port or an incomplete data URL)
+                raise XMLResourceOSError(f"can't access to resource {url!r}: {err}")
 
         if use_loaded and self.text is not None:
             fp: IOType = StringIO(self.text)
